@@ -13,7 +13,8 @@ func def(prop string, gen func(tier string, seed uint64, idx int) interface{}, r
 
 func init() {
 	world.Register(def("C01", genRouting("C01"), ruleRouting, "exploration", 12000, 600000))
-	for _, p := range []string{"C02", "C07", "C17"} {
+	world.Register(def("C07", genSuback("C07"), "script = 1-2 subscriber clients sending SUBSCRIBE/UNSUBSCRIBE with 1-12 filters (valid, invalid such as a/#/b or a+, repeated, overlapping, never subscribed), requested QoS 0-2 and out of range (3, 0x7f, 0x80, 0xff), server maximum QoS 0-2, and a publisher probing the filters before, between and after with barriers in between. Oracle: exactly one SUBACK/UNSUBACK per request in request order with one code per filter = min(requested, maximum) or 0x80 for an invalid filter (or the broker closes the connection); effect judged by the routing oracle with the certain window starting at the SUBACK and ending at the UNSUBSCRIBE. Non-trivial = at least one delivery or more than one connection.", "exploration", 12000, 600000))
+	for _, p := range []string{"C02", "C17"} {
 		world.Register(def(p, genRouting(p), "routing profile (provisional)", "exploration", 12000, 600000))
 	}
 }
